@@ -219,11 +219,28 @@ def eval_pools(case):
     def bad(fp, msg):
         v.append((fp, f'{msg} [type {t} family {fam} names {scheme}]'))
     pools = Pools(atype=T[t])
+    made = []
     for i, (on, ref, did) in enumerate(fam):
-        p = Pool(atype=T[t], pool_id=pname(i), delegation_id=did, defined_on=on, defined_for=list(ref))
+        if scheme == 'sets':
+            # reference nodes given as a set; a later pool with the same reference nodes is given the very set object the
+            # earlier pool hands out (what a caller copying one pool's nodes to another would write)
+            # (the constructor drops the new pool's own defining node from what it is given)
+            same = [q for q in made if set(q.get_defined_for()) - {on} == set(ref) - {on}]
+            arg = same[0].get_defined_for() if same else set(ref)
+        else:
+            arg = list(ref)
+        p = Pool(atype=T[t], pool_id=pname(i), delegation_id=did, defined_on=on, defined_for=arg)
         p.set_pool_details(mk_details(t, i % NDET))
         pools.add_pool(pool=p)
+        made.append(p)
     want = pools_describe(pools)
+    # what was built is what was asked for (each pool owns its reference-node set: building a second pool changes no other)
+    asked = {pname(i): (on, frozenset(ref) - {on}, did) for i, (on, ref, did) in enumerate(fam)}
+    built = {pid: (d[0], d[1] - {d[0]}, d[2]) for pid, d in want.items()}
+    if built != asked:
+        diff = {k: (asked.get(k), built.get(k)) for k in set(asked) | set(built) if asked.get(k) != built.get(k)}
+        bad('pools/constructed-differs', f'asked for / built: {diff}')
+        return {'v': v, 'nt': (t, tuple(fam), scheme), 'out': 'constructed-differs'}
     pools.build_index_by_delegation_id()
     # a node needing two entries under one delegation id cannot be represented per node - must be rejected loudly
     need = {}
@@ -343,7 +360,7 @@ def pool_cases(tier):
             pv3 = [x for x in pv if len(x[1]) == 1]      # three pools: single-reference pools (otherwise never representable on 4 nodes)
             for a, b, c in itertools.product(pv3, repeat=3):
                 cases.append((t, (a, b, c)))
-    return cases + [c + ('empty-first',) for c in cases]
+    return cases + [c + ('empty-first',) for c in cases] + [c + ('sets',) for c in cases if len(c[1]) > 1]
 
 
 REPLAY = {'sets': eval_set, 'pools': eval_pools}
